@@ -20,7 +20,26 @@ def nontrivial(chk, st, rid, evs):
                 chk.sample({"kind": e["kind"], "p64": e["p64"], "m2": e["m2"], "cap64": e.get("cap64"), "widths_before": wb[:10], "widths_after": wa[:10]}, limit=4)
 
 
+def tiny_scope(chk):
+    import os
+    import shutil
+    import vlib
+    cfg = "ExpansionCases_" + chk.tier
+    d = vlib.scratch("C18-emit")
+    out = os.path.join(d, "cases.out")
+    res = vlib.tlc_ok(vlib.tlc("ExpansionCases", cfg=cfg, workers=16, stdout_path=out, timeout=3000, xmx="16g"), cfg)
+    chk.add_tlc(res, "tlc enumeration of tiny expansion problems (" + cfg + ")")
+    results, d2, allruns, exe = tracecheck.cases_and_validate(chk, "asan-ubsan", "record", out, cfg, module="TraceCircuit", extra_args=["timeout=60"])
+    tracecheck.attribute(chk, results, "C18", exe, "expand", "asan-ubsan", d2)
+    for rid, evs in allruns.items():
+        chk.count()
+        nontrivial(chk, {"flavour": "tiny"}, rid, evs)
+    shutil.rmtree(d, ignore_errors=True)
+    shutil.rmtree(d2, ignore_errors=True)
+
+
 def run(chk):
+    tiny_scope(chk)
     plan = [
         dict(flavour="asan-ubsan", scen="expand", runs=(1200, 30000), opts={"varyScale": 4, "maxMovable": 8, "utilLo": 0.02, "utilHi": 0.9}),
         dict(flavour="rel", scen="expand", runs=(800, 20000), opts={"varyScale": 4, "maxMovable": 14, "utilLo": 0.02, "utilHi": 1.2}),
